@@ -73,7 +73,7 @@ IDSWAP = {
 def test_regions(src):
     """byte ranges of #[cfg(test)] items (mod ... { ... } or fn)."""
     out = []
-    for m in re.finditer(r"#\[cfg\(test\)\]", src):
+    for m in re.finditer(r"#\[cfg\((?:all\()?test[^\]]*\]", src):
         i = src.find("{", m.end())
         semi = src.find(";", m.end())
         if semi != -1 and (i == -1 or semi < i):
